@@ -262,6 +262,14 @@ def tick_tie():
                     "TickGen.")
 
 
+def fill_tie():
+    """Market._execute_orders (C04, C08): what one fill does to the book, the step statistics and the record"""
+    import py2coq_fill
+    src = os.path.join(REPO, "pams", "market.py")
+    return _run_tie("translator:pams/market.py(_execute_orders)", src, lambda: py2coq_fill.translate(REPO), "FillGen.v", "FillC08Proofs.v",
+                    "FillGen.")
+
+
 def runner_tie():
     """the per-order block of SequentialRunner._handle_orders, both copies (C09, C11)"""
     import py2coq_runner
